@@ -29,6 +29,16 @@ CLAIMS = {
          "seal/open agree on the nonce size, and ReadWallet/ReadFromPem/DecodeGOBWallet report success only behind the success edge of every fallible step.",
          "round-trip equality, detection of wrong key / altered bytes (AES-GCM's guarantee, trusted), gob on hostile input",
          "go/ssa must-fact bounds analysis + error-discipline path obligations"),
+ "C17": ("DESIGN.md §3 C17",
+         "Static lockset and guard analysis of the awaiting-transaction cache: every read-modify-write method of the index holds the receiver's exclusive lock at every cache access (so no interleaving of overlapping calls can lose or invent a list entry), "
+         "mutations in the removal path lie behind the receiver-address equality on the transaction decoded from the very entry being deleted, and both issuer and receiver keys flow into the list updates. Holds for all interleavings, which a concurrent test can only sample.",
+         "sequential model equivalence of the list encoding, expiry/eviction, linearizability beyond mutual exclusion",
+         "must-hold locksets + edge-cut guard dominance + origin (may-flow) analysis on go/ssa"),
+ "C18": ("DESIGN.md §3 C18",
+         "Static lockset discipline (Eraser/RacerD style) standing in for the race detector over all schedules: for every field of the node's long-lived structs written by an operation of the property's mix, all accesses reachable from those operations "
+         "share one lock held exclusively at writes, or belong to one single-instance loop; goroutine-captured variables are not stored to after the go statement; published vertices/transactions are written only in their builders.",
+         "races inside third-party packages, happens-before through channels, operations outside the property's mix (peer join, startup, shutdown)",
+         "interprocedural must-hold locksets over the VTA call graph + per-field access classification on go/ssa"),
 }
 
 NA = {
